@@ -35,6 +35,8 @@ type c11Scenario struct {
 	Stream     bool       `json:"stream_form"`
 	PeriodS    int        `json:"period_s"`
 	WinS       int        `json:"window_period_s"` // the window period: 10 (tumbling), 3 (gaps, empty batches occur) or 20 (overlapping: every point is seen by two windows)
+	Through    string     `json:"batches_pass_through,omitempty"` // batch form: a node between window and aggregation that forwards batches message by message (their size is then not announced)
+	Sparse     bool       `json:"first_point_lacks_the_field,omitempty"` // every group starts with a point that does not carry the aggregated field
 	Groups     []c11Group `json:"groups"`
 	Script     string     `json:"script"`
 	Config     string     `json:"config"`
@@ -61,11 +63,17 @@ func c11Gen(c *Ctx) *c11Scenario {
 		sc.PointTimes = g.Bool()
 	case "count", "sum", "mean", "spread", "stddev":
 		sc.PointTimes = g.Chance(1, 3) // "Aggregation functions always use the batch time."
+	case "top", "bottom", "distinct":
+		sc.PointTimes = g.Chance(1, 3) // the selected points keep their times; the batch they come in is still the window's
 	}
 	switch sc.Fn {
 	case "count", "sum", "mean", "min", "max":
 		sc.Stream = g.Chance(1, 4)
 	}
+	if !sc.Stream && g.Chance(1, 3) {
+		sc.Through = []string{"|where(lambda: \"v\" == \"v\")", "|eval(lambda: 1).as('one').keep()"}[g.Intn(2)]
+	}
+	sc.Sparse = g.Chance(1, 4)
 	ng := g.Range(1, 3)
 	ivals := []int64{0, 1, -1, 2, 3, 5, 7, 7, 42, -1000000000000000, 1000000000000000}
 	fvals := []float64{0, 1.5, -2.25, 3, 3, 1e300, -1e300, 0.1, 1e-9, 42}
@@ -98,6 +106,9 @@ func c11Gen(c *Ctx) *c11Scenario {
 	sb.WriteString("stream\n    |from().measurement('m').groupBy('g')\n")
 	if !sc.Stream {
 		fmt.Fprintf(&sb, "    |window().period(%ds).every(%ds).align()\n", sc.WinS, sc.PeriodS)
+		if sc.Through != "" {
+			sb.WriteString("    " + sc.Through + "\n")
+		}
 	}
 	switch sc.Fn {
 	case "percentile":
@@ -120,6 +131,14 @@ func c11Gen(c *Ctx) *c11Scenario {
 	sb.WriteString("\n    |log().prefix('AGG')\n")
 	sc.Script = sb.String()
 	return sc
+}
+
+// c11SparseT: the time of the field-less point a group starts with.
+func c11SparseT(gr c11Group) int {
+	if t := gr.Points[0].T - 1; t > 0 {
+		return t
+	}
+	return 0
 }
 
 type c11Val struct {
@@ -404,6 +423,10 @@ func runC11(c *Ctx) Verdict {
 			wg.Add(1)
 			go func(gi int, gr c11Group) {
 				defer wg.Done()
+				if sc.Sparse && len(gr.Points) > 0 {
+					// a point of the series without the aggregated field (sparse fields): it contributes nothing
+					d.WriteLine("db", "rp", fmt.Sprintf("m,g=g%d,k=z other=1i %d\n", gi, int64(c11SparseT(gr))*int64(time.Second)))
+				}
 				for _, p := range gr.Points {
 					w := p.T / sc.PeriodS
 					val := fmt.Sprintf("%di", p.I)
@@ -441,10 +464,11 @@ func runC11(c *Ctx) Verdict {
 	shape := map[string]interface{}{"fn": sc.Fn, "stream_form": sc.Stream}
 	// observed per group: list of (time, value) in emission order, with batch boundaries flattened per window end
 	type obs struct {
-		t   int
-		val interface{}
-		win int // window index derived from the batch tmax or the point time
-		tag string
+		t    int
+		val  interface{}
+		win  int // window index derived from the batch tmax or the point time
+		tag  string
+		tmax int // time of the batch the value came in (0: it came as a point)
 	}
 	got := map[string][]obs{}
 	for _, o := range d.Sinks.Get("AGG") {
@@ -465,7 +489,7 @@ func runC11(c *Ctx) Verdict {
 				if !ok {
 					return Fail("output/field-name", "the output of %s has fields %v, expected a field named %q", sc.Fn, simrt.Keys(p.Fields), field)
 				}
-				got[g] = append(got[g], obs{t: int(p.TimeNs / 1e9), val: v, win: int(o.BCopy.TMaxNs/1e9) - 1, tag: p.Tags["k"]})
+				got[g] = append(got[g], obs{t: int(p.TimeNs / 1e9), val: v, win: int(o.BCopy.TMaxNs/1e9) - 1, tag: p.Tags["k"], tmax: int(o.BCopy.TMaxNs / 1e9)})
 			}
 		}
 	}
@@ -497,6 +521,10 @@ func runC11(c *Ctx) Verdict {
 			// one emission per arrival at or after the next edge, none for steps skipped during a silence
 			wm := &c03Scenario{PeriodS: sc.WinS, EveryS: sc.PeriodS, Align: true}
 			var ts []int
+			shift := 0
+			if sc.Sparse && len(gr.Points) > 0 {
+				ts, shift = append(ts, c11SparseT(gr)), 1 // the window node sees the field-less point like any other
+			}
 			for _, p := range gr.Points {
 				ts = append(ts, p.T)
 			}
@@ -507,7 +535,10 @@ func runC11(c *Ctx) Verdict {
 				}
 				var vals []c11Val
 				for _, id := range win.Ids {
-					p := gr.Points[id]
+					if id < shift {
+						continue // it does not carry the field
+					}
+					p := gr.Points[id-shift]
 					vals = append(vals, c11Val{isF: gr.Float[p.T/sc.PeriodS], i: p.I, f: p.F, t: p.T, tag: p.Tag})
 				}
 				for _, o := range sc.reference(vals, win.T) {
@@ -569,6 +600,13 @@ func runC11(c *Ctx) Verdict {
 					v.Shape = shape
 					return v
 				}
+				for b := 0; b < cnt; b++ {
+					if end := (wantWin[wi] + 1) * sc.PeriodS; gg[gi2+b].tmax != 0 && gg[gi2+b].tmax != end {
+						v := Fail("aggregate/time", "%s: the batch computed over the window ending at %ds is stamped %ds (usePointTimes=%v applies to the points in it).\n%s", sc.Fn, end, gg[gi2+b].tmax, sc.PointTimes, describe())
+						v.Shape = shape
+						return v
+					}
+				}
 				used := make([]bool, cnt)
 				for a := wi; a < k; a++ {
 					found := false
@@ -623,7 +661,7 @@ func init() {
 	Register(&Prop{
 		ID:  "C11",
 		Run: runC11,
-		Rule: "case = one of 19 aggregation functions (with percentile argument, top/bottom n, movingAverage window, as(), usePointTimes()) below a window emitted every 10s with period 10s (tumbling), 3s (gaps, empty batches) or 20s (overlapping: every point is aggregated twice) (or, for count/sum/mean/min/max, directly on the stream with runs of equal-time points and an occasional late point) over 1-3 groups, each with 1-4 windows of 0-8 values that are int or float per window (duplicates, negatives, magnitudes up to 1e15 / 1e300, field kind changing between windows), one concurrent writer per group; " +
+		Rule: "case = one of 19 aggregation functions (with percentile argument, top/bottom n, movingAverage window, as(), usePointTimes()) below a window emitted every 10s with period 10s (tumbling), 3s (gaps, empty batches) or 20s (overlapping: every point is aggregated twice) (or, for count/sum/mean/min/max, directly on the stream with runs of equal-time points and an occasional late point) (round 3: in a third of the batch cases the batches pass through a where/eval that forwards them message by message without announcing their size; in a quarter every group starts with a point that lacks the aggregated field; top/bottom/distinct also with usePointTimes, the batch they emit must still carry the window's end) over 1-3 groups, each with 1-4 windows of 0-8 values that are int or float per window (duplicates, negatives, magnitudes up to 1e15 / 1e300, field kind changing between windows), one concurrent writer per group; " +
 			"non-trivial = the definition gives at least one output; distinct = distinct (scenario, interleaving signature) pairs",
 		Real:        []string{"InfluxQLNode (BeginBatch/BatchPoint/EndBatch, stream mode, streaming transformations), generated reduce contexts (influxql.gen.go) on the influxdb query reducers", "WindowNode, FromNode/groupBy, LogNode, TaskMaster, httpd write endpoint"},
 		Stub:        []string{"log sink below the aggregation node"},
